@@ -90,7 +90,8 @@ def make_driver(comp, layout, scenario):
             arr = ', '.join(str(b) for b in bs) or '0'
             out.append(f'    {{ static const uint8_t c[] = {{{arr}}}; const uint8_t *p = c;')
             if indirect:
-                out.append(f'      r = {name}_feed(&p, c + {len(bs)}, &S); printf("RET %s %ld", codes[r], (long)(p - c)); dump(&S); }}')
+                fy = 3 + len(comp.dctx.finish_codes)
+                out.append(f'      int guard = 0; do {{ r = {name}_feed(&p, c + {len(bs)}, &S); printf("RET %s %ld", codes[r], (long)(p - c)); dump(&S); }} while (r >= {fy} && ++guard < 4096); }}')
             else:
                 out.append(f'      r = {name}_feed(p, c + {len(bs)}, &S); printf("RET %s -1", codes[r]); dump(&S); }}')
         elif call[0] == 'end':
@@ -204,9 +205,12 @@ def run_absm(machine, comp, scenario, start_data=None):
             bs = list(call[1])
             i = 0
             code = 'OK'
+            r = None
+            guard = 0
             while i < len(bs):
-                if done:
-                    code = done
+                guard += 1
+                if done or guard > 100000:
+                    code = done or 'UNWIND'
                     break
                 ctx = symx.Ctx()
                 ev = []
@@ -214,24 +218,21 @@ def run_absm(machine, comp, scenario, start_data=None):
                 for e in ev:
                     log.append(('HOOK', e[1], z3.simplify(e[2]).as_long(), fmt_outs(layout, comp.spec, e[3])))
                 st, data = r.state, r.data
-                if r.consumed:
+                if r.consumed and not (r.code == 'DONE' or r.code.startswith('FINISH_')):
                     i += 1
                 if r.code == 'OK':
                     continue
+                if r.code.startswith('YIELD_'):
+                    # the protocol re-invokes feed with the pointer as it is: the run continues
+                    log.append(('RET', r.code, i, fmt_outs(layout, comp.spec, data.snapshot())))
+                    continue
                 code = r.code
-                if r.code in ('STUCK',):
+                if r.code == 'STUCK':
                     code = 'OK'
                     break
-                if r.code.startswith('YIELD_'):
-                    break
-                done = r.code if r.code in ('FAIL',) or r.code == 'DONE' or r.code.startswith('FINISH_') else None
-                if r.code in ('UNWIND', 'TERM'):
-                    done = r.code
+                done = r.code
                 break
-            off = i
-            if code == 'DONE' or code.startswith('FINISH_'):
-                off = max(i - 1, 0) if r.consumed else i
-            log.append(('RET', code, off, fmt_outs(layout, comp.spec, data.snapshot())))
+            log.append(('RET', code, i, fmt_outs(layout, comp.spec, data.snapshot())))
         elif call[0] == 'end':
             if done:
                 log.append(('RET', done, -1, fmt_outs(layout, comp.spec, data.snapshot())))
@@ -302,4 +303,52 @@ def logs_differ(clog, alog, compare_offsets=True, compare_final_outs_after_termi
             terminal = c[1] in ('FAIL', 'DONE') or c[1].startswith('FINISH_')
             if not outs_equal(c[3], a[3]):
                 return f'event #{k}: outputs after call differ: C {c[3]} vs abstract {a[3]}'
+    return None
+
+
+def observable_trace(log, call_starts):
+    """normalise a C/abstract log of consecutive feed calls into the chunking-independent observable trace:
+    hooks, yields with absolute offsets, the terminal/last result with absolute offset and the outputs there"""
+    out = []
+    ci = 0
+    first = True
+    last = None
+    for e in log:
+        if e[0] == 'HOOK':
+            out.append(e)
+        elif e[0] == 'RET':
+            if first and e[2] == -1 and e[1] == 'OK' and e[3] is None:
+                first = False
+                continue
+            first = False
+            base = call_starts[ci] if ci < len(call_starts) else 0
+            off = e[2] + base if e[2] >= 0 else -1
+            if e[1].startswith('YIELD_'):
+                out.append(('YIELD', e[1], off, e[3]))
+                continue
+            last = ('RET', e[1], off, e[3])
+            ci += 1
+            if e[1] != 'OK':
+                break
+        elif e[0] in ('CRASH', 'TIMEOUT'):
+            out.append(e)
+            break
+    if last is not None:
+        out.append(last)
+    return out
+
+
+def traces_differ(t1, t2):
+    for k in range(max(len(t1), len(t2))):
+        if k >= len(t1) or k >= len(t2):
+            return f'event #{k}: {t1[k] if k < len(t1) else None} vs {t2[k] if k < len(t2) else None}'
+        a, b = t1[k], t2[k]
+        if a[0] != b[0] or a[1] != b[1]:
+            return f'event #{k}: {a[:3]} vs {b[:3]}'
+        if a[0] in ('CRASH', 'TIMEOUT'):
+            continue
+        if a[2] != b[2] and not (a[2] == -1 or b[2] == -1):
+            return f'event #{k}: {a[:3]} vs {b[:3]}'
+        if not outs_equal(a[3], b[3]):
+            return f'event #{k} {a[:3]}: outputs {a[3]} vs {b[3]}'
     return None
